@@ -26,6 +26,7 @@ WHAT = {
     "cancel-unstarted-typeerror": "task.cancel(t) before t's first step (right after task.create) raises TypeError: t is not yet in our_tasks",
     "svc-addcb-keyerror": "task.add_done_callback on a task started by a service call raises KeyError: run_coro gets no ast_ctx, so the task has no task2cb entry",
     "deco-killme-claims": "legacy @task_unique(n, kill_me=True): of two same-instant trigger occurrences the later one cancels the earlier one (the kill_me check is made when the trigger fires, the claim at the first step is made without kill_me)",
+    "cb-shared-interpreter": "done-callbacks of different tasks that are suspended at overlapping times share one interpreter context (the AstEval in which the callback function was defined): their local variables are mixed up unless they resume in LIFO order",
     "unexplained": "recording is not a behaviour of the Tasks model under any known deviation",
 }
 
@@ -69,23 +70,25 @@ def _seen(t):
 def worker(tag, prog):
     vf.reg(tag, task.current_task())
     vf.rec("start", tag)
+    i = -1
     for op in prog:
+        i += 1
         k = op[0]
         if k == "unique":
-            vf.rec("op", tag, "unique", op[1], op[2])
+            vf.rec("op", tag, "unique", op[1], op[2], i)
             task.unique(op[1], kill_me=op[2])
         elif k == "sleep":
-            vf.rec("op", tag, "sleep", op[1])
+            vf.rec("op", tag, "sleep", op[1], i)
             task.sleep(op[1])
             vf.rec("res", tag, "-")
         elif k == "raise":
-            vf.rec("op", tag, "raise")
+            vf.rec("op", tag, "raise", i)
             raise ValueError("boom")
         elif k == "create":
-            vf.rec("op", tag, "create", op[1])
+            vf.rec("op", tag, "create", op[1], i)
             vf.reg(op[1], task.create(worker, op[1], op[2]))
         elif k == "exec":
-            vf.rec("op", tag, "exec", op[1], op[2])
+            vf.rec("op", tag, "exec", op[1], op[2], i)
             try:
                 if op[1] == "ret":
                     r = task.executor(operator.add, op[2], 1)
@@ -106,7 +109,7 @@ def worker(tag, prog):
             if tgt is None or tgt.done():
                 vf.rec("skip", tag, who)
             elif k == "cancel":
-                vf.rec("op", tag, "cancel", who)
+                vf.rec("op", tag, "cancel", who, i)
                 try:
                     if op[1] == "self":
                         task.cancel()
@@ -116,24 +119,24 @@ def worker(tag, prog):
                     vf.rec("exc", tag, type(e).__name__)
                     raise ValueError("api")
             elif k == "addcb":
-                vf.rec("op", tag, "addcb", who, op[2], op[3])
+                vf.rec("op", tag, "addcb", who, op[2], op[3], i)
                 try:
                     task.add_done_callback(tgt, FN[op[2]], who, op[3], op[4], op[5])
                 except Exception as e:
                     vf.rec("exc", tag, type(e).__name__)
                     raise ValueError("api")
             elif k == "rmcb":
-                vf.rec("op", tag, "rmcb", who, op[2])
+                vf.rec("op", tag, "rmcb", who, op[2], i)
                 try:
                     task.remove_done_callback(tgt, FN[op[2]])
                 except Exception as e:
                     vf.rec("exc", tag, type(e).__name__)
                     raise ValueError("api")
             elif k == "wait":
-                vf.rec("op", tag, "wait", who)
+                vf.rec("op", tag, "wait", who, i)
                 task.wait({tgt})
                 vf.rec("res", tag, _seen(tgt))
-    vf.rec("op", tag, "fin")
+    vf.rec("op", tag, "fin", i + 1)
     return "R"
 
 @service
@@ -146,7 +149,7 @@ def ev_CTX(tag=None, prog=None, **kw):
 
 @state_trigger("pyscript.kick_CTX")
 def st_CTX(value=None, **kw):
-    worker(value, vf.prog(value))
+    worker(str(value), vf.prog(str(value)))
 '''
 
 DECO = r'''
@@ -281,6 +284,28 @@ def run_scenario(scn):
     return {"id": scn["sid"], "flags": [], "trace": lines_of(out["recs"]), "scn": scn}
 
 
+def suspension_points(case):
+    """Suspension points of a recorded scenario: (task, kind, index, instant ms, duration ms) for every
+    park of >= 1 s: body sleeps (index = position of the sleep in the task's program), task.wait
+    (position of the wait), sleeps inside done-callbacks (index = callback function)."""
+    pts = []
+    tr = case["trace"]
+    nth = {}
+    for j, ln in enumerate(tr):
+        if ln["k"] == "op":
+            nth[ln["t"]] = nth.get(ln["t"], -1) + 1
+        if ln["k"] == "op" and ln["op"] == "sleep" and ln["d"] >= 1000:
+            pts.append((ln["t"], "sleep", ln["i"], ln["ts"], ln["d"]))
+        elif ln["k"] == "op" and ln["op"] == "wait":
+            end = [x["ts"] for x in tr[j + 1:] if x["k"] == "res" and x["t"] == ln["t"]]
+            dur = (end[0] - ln["ts"]) if end else 100000
+            if dur >= 1000:
+                pts.append((ln["t"], "wait", ln["i"], ln["ts"], dur))
+        elif ln["k"] == "cbop" and ln["b"] == "sleep" and ln["d"] >= 1000:
+            pts.append((ln["t"], "cb", ln["f"], ln["ts"], ln["d"]))
+    return pts
+
+
 def lines_of(recs):
     """Recorder tuples -> TasksTrace lines (pure re-formatting, no interpretation)."""
     out = []
@@ -296,7 +321,8 @@ def lines_of(recs):
         elif k == "start":
             out.append({"k": "start", "t": a[1], "ts": ts})
         elif k == "op":
-            ln = {"k": "op", "t": a[1], "op": a[2], "ts": ts}
+            ln = {"k": "op", "t": a[1], "op": a[2], "ts": ts, "i": a[-1]}
+            a = a[:-1]
             o = a[2]
             if o == "unique":
                 ln.update(n=a[3], km=bool(a[4]))
@@ -403,20 +429,33 @@ def corruptions(cases, want):
             break
         tr = c["trace"]
         snaps = [i for i, ln in enumerate(tr) if ln["k"] == "snap" and any(v != "-" for d in ln["owner"].values() for v in d.values())]
+        lives = [i for i, ln in enumerate(tr) if ln["k"] == "snap" and ln["live"]]
         starts = [i for i, ln in enumerate(tr) if ln["k"] == "start"]
-        if not snaps or not starts:
+        if not (snaps or lives) or not starts:
             continue
-        i = snaps[0]
-        c2 = {"id": "corrupt-owner/" + c["id"], "flags": [], "trace": copy.deepcopy(tr)}
-        ow = c2["trace"][i]["owner"]
-        cc, nn = [(a, b) for a in sorted(ow) for b in sorted(ow[a]) if ow[a][b] != "-"][0]
-        ow[cc][nn] = "-"
+        if snaps:
+            i = snaps[0]
+            c2 = {"id": "corrupt-owner/" + c["id"], "flags": [], "trace": copy.deepcopy(tr)}
+            ow = c2["trace"][i]["owner"]
+            cc, nn = [(a, b) for a in sorted(ow) for b in sorted(ow[a]) if ow[a][b] != "-"][0]
+            ow[cc][nn] = "-"
+        else:
+            i = lives[0]
+            c2 = {"id": "corrupt-live/" + c["id"], "flags": [], "trace": copy.deepcopy(tr)}
+            c2["trace"][i]["live"] = c2["trace"][i]["live"][1:]
         bad.append(c2)
         expect[c2["id"]] = (c["id"], i + 1)
         j = starts[0]
         bad.append({"id": "corrupt-drop/" + c["id"], "flags": [], "trace": tr[:j] + tr[j + 1:]})
         expect[bad[-1]["id"]] = (c["id"], j + 1)
     return bad, expect
+
+
+def overlapping_callbacks(case):
+    """Input class of the finding cb-shared-interpreter: done-callbacks of two different tasks are
+    suspended at overlapping times (taken from the recording's cbop sleep lines)."""
+    iv = [(ln["ts"], ln["ts"] + ln["d"], ln["t"]) for ln in case["trace"] if ln["k"] == "cbop" and ln["b"] == "sleep"]
+    return any(a[2] != b[2] and a[0] < b[1] and b[0] < a[1] for i, a in enumerate(iv) for b in iv[i + 1:])
 
 
 def validate(ctx, prop, cases, label, masked_ids=(), selftest_want=0):
@@ -438,6 +477,10 @@ def validate(ctx, prop, cases, label, masked_ids=(), selftest_want=0):
     ctx.cov["trace_lines"] = ctx.cov.get("trace_lines", 0) + sum(len(c["trace"]) for c in cases)
     rejected = [c for c in cases if c["id"] in rej]
     why = classify(ctx, rejected, label) if rejected else {}
+    for c in rejected:
+        # no deviation flag of the model explains it: name the failing input class if it is the known one
+        if why[c["id"]] == ["unexplained"] and overlapping_callbacks(c):
+            why[c["id"]] = ["cb-shared-interpreter"]
     nmask = 0
     for c in rejected:
         sub = "legacy" if c["scn"]["legacy"] else "dm"
